@@ -92,6 +92,21 @@ def x_decode(ctx, case):
             ctx.check(err is None and got == expected, "decode.as_text==whole.decode",
                       lambda: {"how": how, "got": got, "expected": expected, "err": repr(err),
                                "parts": parts, "charset": charset})
+    # a lazy source read as text twice, the source having grown in between (a log buffer): each evaluation
+    # decodes what the source yields THEN
+    try:
+        expected2 = (data + data).decode(codec)
+    except UnicodeError:
+        expected2 = None
+    if exp_err is None and expected2 is not None:
+        box = [list(parts)]
+        lazy = Content(_ct(charset), lambda: list(box[0]))
+        first = lazy.as_text()
+        box[0] = list(parts) + list(parts)
+        second, third = lazy.as_text(), "".join(lazy.iter_text())
+        ctx.check(first == expected and second == expected2 and third == expected2, "decode.as_text==whole.decode",
+                  lambda: {"first as_text()": first, "after the source doubled": second, "iter_text": third,
+                           "expected then": expected2, "charset": charset})
     ctx.check(repr(c.content_type) == rendered_before and c == twin
               and c.content_type.parameters == ({"charset": charset} if charset else {}),
               "decode.reading-text-leaves-the-declared-type-alone",
